@@ -122,13 +122,14 @@ def _closed(rules):
     return used <= heads
 
 
-def f1_programs(nrules, bodies="all", dup_facts=False):
-    """all closed canonical F1 rule sets with exactly nrules rules (as clause lists)"""
+def f1_programs(nrules, bodies="all", dup_facts=False, facts=None):
+    """all closed canonical F1 rule sets with exactly nrules rules (as clause lists); ``facts``
+    replaces the probabilities of a and b (boundary values 1.0 / 0.0 for the F1.*one families)"""
     allrules = f1_rules(bodies)
     for rs in itertools.combinations(allrules, nrules):
         if not _closed(rs) or not _canonical_derived(rs):
             continue
-        clauses = [fact(p, A(f)) for p, f in F1_FACTS]
+        clauses = [fact(p, A(f)) for p, f in (facts or F1_FACTS)]
         if dup_facts:
             clauses.append(fact("0.3", A("a")))
         for h, b in rs:
